@@ -596,6 +596,148 @@ def run_bfs(eng, p, mode='list'):
 
 
 
+# ---------------------------------------------------------------------------
+# bfs(exprs, max_depth): the queue holds (depth, node) pairs; the ghost keeps
+# the nodes Q and their depths DQ as two sequences of equal length.
+#   BFSD([], [], md) = []
+#   BFSD(x . q, d . dq, md) = x . BFSD(q ++ K, dq ++ CONST(|K|, d+1), md)
+#       with K = kids(x) if x is a list and (md == 0 or d < md), else []
+
+SeqI = z3.SeqSort(z3.IntSort())
+BFSD = z3.Function('BFSD', SeqS, SeqI, z3.IntSort(), SeqS)
+CONSTSEQ = z3.Function('CONSTSEQ', z3.IntSort(), z3.IntSort(), SeqI)
+
+
+def setup_bfs_md(eng):
+    setup(eng)
+
+    def queue(lst):
+        qs, ds = [], []
+        for part in lst.parts:
+            if isinstance(part, tuple):
+                it = part[1]
+                if not (isinstance(it, tuple) and len(it) == 2 and is_node(
+                        eng, it[1])):
+                    raise sym.Unsupported('queue item is not (depth, node)')
+                qs.append(z3.Unit(nm.S(it[1])))
+                ds.append(z3.Unit(sym._znum(it[0])))
+            elif isinstance(part, wl.Seg):
+                g = nm.lazy_node(eng, cur(), cur().fresh_name('probe'))
+                w = part.wrap(g) if part.wrap else g
+                if not (isinstance(w, tuple) and len(w) == 2 and
+                        w[1] is g) or part.rev:
+                    raise sym.Unsupported('queue items are not (depth, '
+                                          'node) in order')
+                qs.append(part.seq)
+                cs = CONSTSEQ(z3.Length(part.seq), sym._znum(w[0]))
+                cur().assume(z3.Length(cs) == z3.Length(part.seq))
+                ds.append(cs)
+            else:
+                qs.append(part.den[0])
+                ds.append(part.den[1])
+
+        def c(xs, sort):
+            if not xs:
+                return z3.Empty(sort)
+            return xs[0] if len(xs) == 1 else z3.Concat(*xs)
+
+        return c(qs, SeqS), c(ds, SeqI)
+
+    def split(e, den):
+        Q, DQ = den
+        p = cur()
+        n = nm.lazy_node(e, p, p.fresh_name('popped'))
+        d = p.fresh_int('depth')
+        rest = z3.Const(p.fresh_name('Q'), SeqS)
+        drest = z3.Const(p.fresh_name('DQ'), SeqI)
+        p.assume(Q == z3.Concat(z3.Unit(nm.S(n)), rest))
+        p.assume(DQ == z3.Concat(z3.Unit(d), drest))
+        p.assume(z3.Length(rest) == z3.Length(drest))
+        return (SNum(d), n), (rest, drest)
+
+    def havoc(e, env_, p):
+        Q = z3.Const(p.fresh_name('Q'), SeqS)
+        DQ = z3.Const(p.fresh_name('DQ'), SeqI)
+        p.assume(z3.Length(Q) == z3.Length(DQ))
+        env_.vars['visit'] = wl.AbsList(e, [wl.Opaque(
+            (Q, DQ), split, lambda d: z3.Length(d[0]) > 0, top_end=False)])
+        p.ghost['out'] = z3.Const(p.fresh_name('O'), SeqS)
+
+    def unfold(p, q, dq, md):
+        x = q[0]
+        d = dq[0]
+        r = z3.SubSeq(q, 1, z3.Length(q) - 1)
+        dr = z3.SubSeq(dq, 1, z3.Length(dq) - 1)
+        K = z3.If(z3.And(Struct.is_tup(x), expands(d, md)), kids(x),
+                  z3.Empty(SeqS))
+        p.assume(z3.If(
+            z3.Length(q) == 0, BFSD(q, dq, md) == z3.Empty(SeqS),
+            BFSD(q, dq, md) == z3.Concat(z3.Unit(x), BFSD(
+                z3.Concat(r, K),
+                z3.Concat(dr, CONSTSEQ(z3.Length(K), d + 1)), md))))
+        p.assume(CONSTSEQ(z3.IntVal(0), d + 1) == z3.Empty(SeqI))
+        p.assume(z3.Concat(dr, z3.Empty(SeqI)) == dr)
+
+    def start(e, env_, p):
+        q, dq = queue(env_.vars['visit'])
+        unfold(p, q, dq, p.ghost['md'])
+
+    def inv(e, env_):
+        p = cur()
+        v = env_.vars['visit']
+        if isinstance(v, list):
+            v = wl.as_abs(e, v)
+        if not isinstance(v, wl.AbsList):
+            return [False]
+        q, dq = queue(v)
+        return [z3.Length(q) == z3.Length(dq),
+                ('C12', z3.Concat(p.ghost['out'],
+                                  BFSD(q, dq, p.ghost['md'])) ==
+                 p.ghost['target'])]
+
+    eng.loop_specs[(BFSQ, 'while visit')] = LoopSpec(
+        inv=inv, havoc={'effect:state': havoc}, sets=('visit', ),
+        on_iter_start=start)
+
+
+def run_bfs_md(eng, p):
+    nodes_mod = eng.load_module('ddsmt.nodes')
+    forest, F = wl.forest(eng, p)
+    if p.decide(p.fresh_bool('no_limit')):
+        md_arg, md = None, z3.IntVal(0)
+    else:
+        md = p.fresh_int('max_depth')
+        p.assume(md >= 1)
+        md_arg = SNum(md)
+    p.ghost['md'] = md
+    p.ghost['target'] = BFSD(F, CONSTSEQ(z3.Length(F), z3.IntVal(1)), md)
+    p.assume(z3.Length(CONSTSEQ(z3.Length(F), z3.IntVal(1))) ==
+             z3.Length(F))
+    p.ghost['out'] = z3.Empty(SeqS)
+    err = None
+    try:
+        for y in eng.call(nodes_mod.g['bfs'], [forest, md_arg], {}):
+            ok = is_node(eng, y)
+            p.oblige('C12/bfs[max_depth]/yields-nodes', ok,
+                     info=repr(type(y)))
+            if not ok:
+                return
+            p.ghost['out'] = z3.Concat(p.ghost['out'], z3.Unit(nm.S(y)))
+    except PyRaise as ex:
+        err = ex
+    p.oblige('C04/bfs[max_depth]/raises-nothing', err is None,
+             info={'outcome': repr(err.value) if err else '',
+                   'signature': type(err.value).__name__ if err else ''})
+    if err is None:
+        p.assume(BFSD(z3.Empty(SeqS), z3.Empty(SeqI), md) ==
+                 z3.Empty(SeqS))
+        p.oblige('C12/bfs[max_depth]/yields-the-depth-limited-breadth-'
+                 'first-order',
+                 mk_bool(p.ghost['out'] == p.ghost['target']),
+                 info={'signature': 'bfs with max_depth does not yield the '
+                       'breadth-first sequence cut below max_depth'})
+
+
 def contracts(tier):
     A = [ASSUME_SPEC, ASSUME_LIST, nm.ASSUME_LAZY]
     rp = wl.harness_replay('harness/nodes_native.py', ['traversal', 5],
@@ -616,6 +758,11 @@ def contracts(tier):
                  lambda e, p: run_ce(e, p, 'node'), setup=setup_ce,
                  assumptions=A, replay=rp),
         Contract('bfs', [BFSQ], run_bfs, setup=setup_bfs, assumptions=A, replay=rp),
+        Contract('bfs[max_depth]', [BFSQ], run_bfs_md, setup=setup_bfs_md,
+                 assumptions=A + ['CONSTSEQ(n, v): the sequence of n copies '
+                                  'of v (uninterpreted; only its length at '
+                                  'the entry and CONSTSEQ(0, v) == [] are '
+                                  'used)'], replay=rp),
         Contract('bfs[node]', [BFSQ], lambda e, p: run_bfs(e, p, 'node'),
                  setup=setup_bfs, assumptions=A, replay=rp),
         Contract('Node.__eq__[any trees]', [EQ], run_eq, setup=setup_eq,
